@@ -151,6 +151,11 @@ module Nat =
   | S n1 -> (match n1 with
              | O -> false
              | S n' -> even n')
+
+  (** val odd : nat -> bool **)
+
+  let odd n0 =
+    negb (even n0)
  end
 
 module Pos =
@@ -4629,6 +4634,163 @@ let br_ok i code =
                          | _ :: _ -> false)
               | _ -> false))
         | _ -> false))
+  | _ -> false
+
+type mins =
+| MAddRbp of z
+| MLeaRaxRbp of z
+| MSubRaxBase
+| MSarRax of z
+| MCmpRaxSize
+| MJb
+| MStoreOff
+| MPush of z
+| MPop of z
+| MSubRsp
+| MAddRsp
+| MMovRR of z * z
+| MMovI of z * z
+| MCall of z
+| MLoadRbpBase
+| MLoadRaxOff
+| MLeaRbpIdx of z * z
+
+(** val mins_eqb : mins -> mins -> bool **)
+
+let mins_eqb a b =
+  match a with
+  | MAddRbp x -> (match b with
+                  | MAddRbp y -> Z.eqb x y
+                  | _ -> false)
+  | MLeaRaxRbp x -> (match b with
+                     | MLeaRaxRbp y -> Z.eqb x y
+                     | _ -> false)
+  | MSubRaxBase -> (match b with
+                    | MSubRaxBase -> true
+                    | _ -> false)
+  | MSarRax x -> (match b with
+                  | MSarRax y -> Z.eqb x y
+                  | _ -> false)
+  | MCmpRaxSize -> (match b with
+                    | MCmpRaxSize -> true
+                    | _ -> false)
+  | MJb -> (match b with
+            | MJb -> true
+            | _ -> false)
+  | MStoreOff -> (match b with
+                  | MStoreOff -> true
+                  | _ -> false)
+  | MPush x -> (match b with
+                | MPush y -> Z.eqb x y
+                | _ -> false)
+  | MPop x -> (match b with
+               | MPop y -> Z.eqb x y
+               | _ -> false)
+  | MSubRsp -> (match b with
+                | MSubRsp -> true
+                | _ -> false)
+  | MAddRsp -> (match b with
+                | MAddRsp -> true
+                | _ -> false)
+  | MMovRR (a1, a2) ->
+    (match b with
+     | MMovRR (b1, b2) -> (&&) (Z.eqb a1 b1) (Z.eqb a2 b2)
+     | _ -> false)
+  | MMovI (a1, a2) ->
+    (match b with
+     | MMovI (b1, b2) -> (&&) (Z.eqb a1 b1) (Z.eqb a2 b2)
+     | _ -> false)
+  | MCall x -> (match b with
+                | MCall y -> Z.eqb x y
+                | _ -> false)
+  | MLoadRbpBase -> (match b with
+                     | MLoadRbpBase -> true
+                     | _ -> false)
+  | MLoadRaxOff -> (match b with
+                    | MLoadRaxOff -> true
+                    | _ -> false)
+  | MLeaRbpIdx (a1, a2) ->
+    (match b with
+     | MLeaRbpIdx (b1, b2) -> (&&) (Z.eqb a1 b1) (Z.eqb a2 b2)
+     | _ -> false)
+
+(** val code_eqb : mins list -> mins list -> bool **)
+
+let rec code_eqb a b =
+  match a with
+  | [] -> (match b with
+           | [] -> true
+           | _ :: _ -> false)
+  | x :: a' ->
+    (match b with
+     | [] -> false
+     | y :: b' -> (&&) (mins_eqb x y) (code_eqb a' b'))
+
+(** val saved_regs : z -> z list **)
+
+let saved_regs live =
+  flat_map (fun t0 ->
+    if Z.testbit live t0
+    then (match tmp_reg t0 with
+          | Some r -> r :: []
+          | None -> [])
+    else []) ((Zpos (XO (XO XH))) :: ((Zpos (XI (XO XH))) :: ((Zpos (XO (XI
+    XH))) :: ((Zpos (XI (XI XH))) :: ((Zpos (XO (XO (XO XH)))) :: ((Zpos (XI
+    (XO (XO XH)))) :: ((Zpos (XO (XI (XO XH)))) :: [])))))))
+
+(** val mov_template : z -> z -> z -> z -> z -> z -> mins list **)
+
+let mov_template sz sh d probe live fn =
+  let rs = saved_regs live in
+  let odd0 = Nat.odd (length rs) in
+  app ((MAddRbp (Z.mul sz d)) :: ((MLeaRaxRbp
+    (Z.mul sz probe)) :: (MSubRaxBase :: [])))
+    (app (if Z.eqb sz (Zpos XH) then [] else (MSarRax sh) :: [])
+      (app (MCmpRaxSize :: (MJb :: (MStoreOff :: [])))
+        (app (map (fun x -> MPush x) rs)
+          (app (if odd0 then MSubRsp :: [] else [])
+            (app ((MMovRR ((Zpos (XI (XI XH))), (Zpos (XI XH)))) :: ((MMovI
+              ((Zpos (XO (XI XH))), Z0)) :: ((MMovI ((Zpos (XO XH)), (Zpos
+              XH))) :: ((MMovI (Z0, fn)) :: ((MCall Z0) :: [])))))
+              (app (if odd0 then MAddRsp :: [] else [])
+                (app (map (fun x -> MPop x) (rev rs))
+                  (MLoadRbpBase :: (MLoadRaxOff :: ((MLeaRbpIdx (sz,
+                  (Z.opp (Z.mul sz probe)))) :: []))))))))))
+
+(** val find_fn : mins list -> z **)
+
+let find_fn code =
+  fold_right (fun i acc ->
+    match i with
+    | MMovI (d, c) -> (match d with
+                       | Z0 -> c
+                       | _ -> acc)
+    | _ -> acc) Z0 code
+
+(** val mov_ok : z -> binstr -> z -> z -> z -> mins list -> bool **)
+
+let mov_ok w i mn mx live code =
+  match i with
+  | MovP d ->
+    let sz = Z.div w (Zpos (XO (XO (XO XH)))) in
+    let sh =
+      if Z.eqb w (Zpos (XO (XO (XO XH))))
+      then Z0
+      else if Z.eqb w (Zpos (XO (XO (XO (XO XH)))))
+           then Zpos XH
+           else if Z.eqb w (Zpos (XO (XO (XO (XO (XO XH))))))
+                then Zpos (XO XH)
+                else Zpos (XI XH)
+    in
+    let probe = if Z.ltb d Z0 then mn else mx in
+    (&&)
+      ((||)
+        ((||)
+          ((||) (Z.eqb w (Zpos (XO (XO (XO XH)))))
+            (Z.eqb w (Zpos (XO (XO (XO (XO XH)))))))
+          (Z.eqb w (Zpos (XO (XO (XO (XO (XO XH))))))))
+        (Z.eqb w (Zpos (XO (XO (XO (XO (XO (XO XH)))))))))
+      (code_eqb code (mov_template sz sh d probe live (find_fn code)))
   | _ -> false
 
 type kind =
